@@ -49,7 +49,7 @@ pub fn fault_case_strategy(thorough: bool) -> BoxedStrategy<Case> {
     let sweep = thorough;
     let kinds = proptest::sample::select(vec![Kind::PQ, Kind::DPQ]);
     let hashers = proptest::sample::select(p.hashers.to_vec());
-    (kinds, hashers, proptest::sample::select(vec![4u32, 12, 64]), 0u8..4)
+    let small = (kinds, hashers, proptest::sample::select(vec![4u32, 12, 64]), 0u8..4)
         .prop_flat_map(move |(kind, hasher, u, dom)| {
             let op = gen::op_strategy(&p, kind, u, dom);
             let kk = if sweep { prop_oneof![3 => any::<u16>(), 1 => Just(u16::MAX)].boxed() } else { (0u16..u16::MAX).boxed() };
@@ -70,8 +70,41 @@ pub fn fault_case_strategy(thorough: bool) -> BoxedStrategy<Case> {
             let step = prop_oneof![3 => op.clone(), 2 => faulty];
             (Just(kind), Just(hasher), Just(u), gen::ctor_strategy(&p, u, dom), vec(step, 1..p.max_ops))
         })
-        .prop_map(|(kind, hasher, universe, ctor, ops)| Case { kind, hasher, universe, ctor, ops, faults: vec![], drain_every: 1, drain_bits: 0 })
-        .boxed()
+        .prop_map(|(kind, hasher, universe, ctor, ops)| Case { kind, hasher, universe, ctor, ops, faults: vec![], drain_every: 1, drain_bits: 0, pad: 0 });
+    // big queues: every crash point of Ord::cmp inside one or two single-element operations whose sift path
+    // runs the whole height of a heap of 65 536 ... 262 145 elements
+    let big_op = prop_oneof![
+        any::<u32>().prop_map(|tag| Op::Push { t: Target::Id(63), tag, p: PrioSpec::AboveMax(1) }),
+        any::<u32>().prop_map(|tag| Op::Push { t: Target::Id(62), tag, p: PrioSpec::BelowMin(1) }),
+        Just(Op::Change { t: Target::Slot(65535), p: PrioSpec::AboveMax(2), by_ref: true }),
+        Just(Op::Change { t: Target::Pos(65535), p: PrioSpec::AboveMax(2), by_ref: true }),
+        Just(Op::Change { t: Target::Pos(0), p: PrioSpec::BelowMin(2), by_ref: true }),
+        Just(Op::Change { t: Target::Pos(1), p: PrioSpec::BelowMin(2), by_ref: true }),
+        any::<u32>().prop_map(|tag| Op::PushInc { t: Target::Pos(65535), tag, p: PrioSpec::AboveMax(3) }),
+        any::<u32>().prop_map(|tag| Op::PushDec { t: Target::Pos(0), tag, p: PrioSpec::BelowMin(3) }),
+        Just(Op::Remove { t: Target::Pos(0), by_ref: true }),
+        Just(Op::Remove { t: Target::Pos(3), by_ref: true }),
+        Just(Op::Pop { end: End::Max }),
+        Just(Op::Pop { end: End::Min }),
+        Just(Op::ChangeBy { t: Target::Pos(65535), rw: Rewrite::AboveMax, by_ref: true }),
+    ];
+    let big = (
+        proptest::sample::select(vec![Kind::PQ, Kind::DPQ]),
+        proptest::sample::select(vec![65_536u32, 131_072, 131_073, 150_001, 262_145]),
+        vec(big_op, 1..2),
+    )
+        .prop_map(|(kind, pad, ops)| Case {
+            kind,
+            hasher: HasherKind::Xx,
+            universe: 64,
+            ctor: Ctor { how: CtorKind::New, init: vec![(1, 0, 5), (2, 0, 6), (3, 0, 7)] },
+            ops: ops.into_iter().map(|op| Op::WithFault { kind: FaultKind::Cmp, k: u16::MAX, op: Box::new(op) }).collect(),
+            faults: vec![],
+            drain_every: 255,
+            drain_bits: 0,
+            pad,
+        });
+    prop_oneof![6000 => small, 1 => big].boxed()
 }
 
 fn refresh<Q: Queue>(it: &mut Interp<Q>) {
@@ -106,7 +139,64 @@ fn guarded_apply<Q: Queue>(it: &mut Interp<Q>, op: &Op) -> bool {
 }
 
 /// deterministic continuations most likely to expose a broken invariant, each on a clone
+/// the same idea on a queue too big to empty again and again: the same calls, a few dozen each, around
+/// both ends of the heap vector and of the slot order
+fn battery_big<Q: Queue>(q: &Q, stats: &mut Stats) {
+    stats.hit("battery_big");
+    let _ = catch_unwind(AssertUnwindSafe(|| {
+        let mut c = q.clone();
+        for _ in 0..48 {
+            if c.pop_max().is_none() {
+                break;
+            }
+        }
+        for _ in 0..24 {
+            let _ = c.pop_min();
+        }
+        let _ = c.len();
+    }));
+    let mut c2 = q.clone();
+    for rev in [false, true] {
+        let _ = catch_unwind(AssertUnwindSafe(|| {
+            let c = &mut c2;
+            let mut ids: Vec<u32> = if rev { c.iter().rev().take(40).map(|(k, _)| k.id).collect() } else { c.iter().take(40).map(|(k, _)| k.id).collect() };
+            ids.push(3_000_001);
+            for id in ids {
+                let _ = c.remove(&id);
+            }
+            let _ = c.pop_max();
+        }));
+    }
+    let _ = catch_unwind(AssertUnwindSafe(|| {
+        let c = &mut c2;
+        c.push(Key::new(3_000_001, 0), Prio::new(i64::MAX));
+        c.push(Key::new(3_000_002, 0), Prio::new(i64::MIN));
+        let ids: Vec<u32> = c.iter().rev().take(30).chain(c.iter().take(10)).map(|(k, _)| k.id).collect();
+        for (i, id) in ids.iter().enumerate() {
+            let _ = c.change_priority(id, Prio::new(if i % 2 == 0 { i64::MAX - 5 - i as i64 } else { i64::MIN + 5 + i as i64 }));
+        }
+        for _ in 0..40 {
+            let r = if Q::DOUBLE { c.pop_min() } else { c.pop_max() };
+            if r.is_none() {
+                break;
+            }
+        }
+    }));
+    let _ = catch_unwind(AssertUnwindSafe(|| {
+        let c = &mut c2;
+        c.retain(|k, _| k.id % 2 == 0);
+        let _ = c.pop_max();
+        let n = c.drain().count();
+        let _ = n;
+        c.push(Key::new(1, 0), Prio::new(1));
+        let _ = c.pop_max();
+    }));
+}
+
 fn battery<Q: Queue>(q: &Q, stats: &mut Stats) {
+    if q.len() > 20_000 {
+        return battery_big(q, stats);
+    }
     stats.hit("battery");
     let guard = q.iter().count() + q.len() + 8;
     // A: pop everything
@@ -242,6 +332,11 @@ fn fault_run<Q: Queue>(case: &Case, stats: &mut Stats) -> Result<bool, Failure> 
                         // exhaustive sweep of every crash point, each on a clone followed by the battery
                         stats.hit("fault_sweep");
                         for kk in 0..ticks.min(400) {
+                            // on the big queues the crash points that small queues cannot have (the last
+                            // seven levels of the sift path) are all visited, the others sampled
+                            if it.case.pad > 0 && kk + 7 < ticks && kk % 5 != 0 {
+                                continue;
+                            }
                             let mut c = Interp {
                                 q: it.q.clone(),
                                 model: it.model.clone(),
